@@ -660,6 +660,9 @@ PROVE_ORDER = ["all", "all+opt", "pure", "inst", "inst+ufabs", "ufabs", "ring+uf
 PROVE_ORDER_FULL_BUDGET = ["all", "all+opt", "inst", "ring+ufabs", "cone0", "cone0+opt"]
 
 
+_CAND_RANK = {"all": 0, "inst": 1, "cone1+opt": 2, "cone1": 3, "cone0+opt": 4, "cone0": 5}
+
+
 def discharge_all(obligs, timeout_s=10, workers=16):
     """obligs: list of (hyps, opt, goal[, candidates[, hint]]).
 
@@ -709,7 +712,10 @@ def discharge_all(obligs, timeout_s=10, workers=16):
                     r["stage"] = stage
                     results[i] = r
                     open_.discard(i)
-                elif stage == "inst" and candidate[i] is None:
+                elif stage in _CAND_RANK and (candidate[i] is None or _CAND_RANK[stage] < _CAND_RANK[candidate[i]["stage"]]):
+                    # a model of a weakened query (optional axioms dropped / quantifiers instantiated / hypotheses
+                    # outside the goal's cone dropped): only a candidate, decided by the native replay
+                    r["stage"] = stage
                     candidate[i] = r
             if stage == full_key and i in open_:
                 last_full[i] = r
@@ -733,13 +739,13 @@ def discharge_all(obligs, timeout_s=10, workers=16):
             if not open_:
                 break
             run_stage(f"cand{ci}", sorted(open_), budget, False)
-        for i in sorted(open_):
-            if candidate[i] is not None:
-                r = candidate[i]
-                r["stage"] = "inst"
-                r["candidate_only"] = True
-                results[i] = r
-                open_.discard(i)
+    # (only once no stage has proved the obligation with the full budget)
+    for i in sorted(open_):
+        if candidate[i] is not None:
+            r = candidate[i]
+            r["candidate_only"] = True
+            results[i] = r
+            open_.discard(i)
     for i in sorted(open_):
         r = last_full[i] or {"verdict": "unknown", "backend": "z3", "model": {}, "raw": ""}
         r["stage"] = "all+opt" if st[i].opt else "all"
